@@ -1035,3 +1035,53 @@ package fpgo
 //@   invariant link: (old(n)-n < old(q.nodeCount) ==> last.Next == pn[plo+old(n)-n]) && (old(n)-n >= old(q.nodeCount) ==> last.Next == nil)
 //@   invariant rest: forall(j, plo+old(n)-n, plo+old(q.nodeCount), pn[j] != nil && st[pn[j]] == 2 && ix[pn[j]] == j && (j+1 < plo+old(q.nodeCount) ==> pn[j].Next == pn[j+1]) && (j+1 == plo+old(q.nodeCount) ==> pn[j].Next == nil))
 //@   invariant list: LQ_ENDS(q, nodes, lo) && LQ_LIST(nodes, lo, lo+q.count, st, ix) && LQ_SAME(nodes, lo, lo+q.count) && LQ_LISTFIELDS(q) && nodes == old(nodes) && lo == old(lo)
+
+// ===================================================================================================
+// C08 - ConcurrentQueue / ConcurrentStack: the ownership discipline that implies linearizability
+// (every method: acquire the exclusive lock; exactly one call on the wrapped object, arguments and results passed
+//  through unchanged; release on every path). Schedules are not explored; see DESIGN.md section 5, C08.
+//@ func (ConcurrentQueue).Put
+//@   prop C08
+//@   opt guarded=queue:lock
+//@   opt frame=off
+//@   requires q != nil && !untyped(q.queue)
+//@   ensures arg-passed-through: _delegarg0 == val
+//@   ensures result-passed-through: r0 == _delegated0
+
+//@ func (ConcurrentQueue).Offer
+//@   prop C08
+//@   opt guarded=queue:lock
+//@   opt frame=off
+//@   requires q != nil && !untyped(q.queue)
+//@   ensures arg-passed-through: _delegarg0 == val
+//@   ensures result-passed-through: r0 == _delegated0
+
+//@ func (ConcurrentQueue).Take
+//@   prop C08
+//@   opt guarded=queue:lock
+//@   opt frame=off
+//@   requires q != nil && !untyped(q.queue)
+//@   ensures result-passed-through: r0 == _delegated0 && r1 == _delegated1
+
+//@ func (ConcurrentQueue).Poll
+//@   prop C08
+//@   opt guarded=queue:lock
+//@   opt frame=off
+//@   requires q != nil && !untyped(q.queue)
+//@   ensures result-passed-through: r0 == _delegated0 && r1 == _delegated1
+
+//@ func (ConcurrentStack).Push
+//@   prop C08
+//@   opt guarded=stack:lock
+//@   opt frame=off
+//@   requires q != nil && !untyped(q.stack)
+//@   ensures arg-passed-through: _delegarg0 == val
+//@   ensures result-passed-through: r0 == _delegated0
+
+//@ func (ConcurrentStack).Pop
+//@   prop C08
+//@   opt guarded=stack:lock
+//@   opt frame=off
+//@   requires q != nil && !untyped(q.stack)
+//@   ensures result-passed-through: r0 == _delegated0 && r1 == _delegated1
+
